@@ -531,3 +531,8 @@ def check(ctx: Ctx) -> None:
             ctx.record("R3.7", i_.key, i_.where, i_.ok, i_.detail, i_.witness)
     from .common import falsy_numeric
     falsy_numeric(ctx, "R3.8", r"seed", "random seeds")
+    # the order in which shared rewards are evaluated comes out of a DFS over *sets* of agent names: only a correct topological
+    # order is independent of the sets' (hash-seed dependent) iteration order - C10's R10.3 decides the DFS functions
+    from . import c10
+    with ctx.borrowed({"R10.3": "R3.9"}):
+        c10.r10_3(ctx)
